@@ -138,7 +138,10 @@ func c19ItemSrc(who string, i int, it c19Item) (stmt []string, probe string) {
 	case ckStar:
 		return []string{"from " + t + " import *"}, "vh.log((" + tag + ",sorted([k for k in globals() if k[:2] != '__'])))"
 	case ckFromMissing:
-		return []string{"from " + t + " import zz"}, "vh.log((" + tag + ",zz))"
+		// a name no module of the case binds: by position, a name that is nothing at all or the
+		// name of a module that is loaded in the context (a loaded module is not an attribute of T)
+		zz := []string{"zz", "sys", "builtins"}[i%3]
+		return []string{"from " + t + " import " + zz}, "vh.log((" + tag + "," + zz + "))"
 	case ckNoSuch:
 		return []string{"import " + c19NoSuch}, "vh.log((" + tag + ",'imported'))"
 	case ckMut:
@@ -1243,7 +1246,7 @@ func init() {
 		Level: "model_checking",
 		Rule: "case = main (run as __main__) + source modules m1..mN found through sys.path (one directory per module file, in both orders, sometimes behind a nonexistent and an empty directory) " +
 			"+ Go-registered modules c19gm (plain Go) and c19gs (Go-registered with an embedded Python body). A module body = [log own name] [a=K;_u=K+1;c=K+2 (optionally __all__=['a','_u']) before or after the items] items [log end]; " +
-			"item alphabet: import T | import T as n | from T import a | from T import a as b | from T import * | from T import zz (missing name) | import c19nosuch (missing module) | import T; T.a = T.a + 100, " +
+			"item alphabet: import T | import T as n | from T import a | from T import a as b | from T import * | from T import zz / sys / builtins (a name T does not bind; two of them name modules loaded in the context) | import c19nosuch (missing module) | import T; T.a = T.a + 100, " +
 			"each bare or inside try/except ImportError, T ranging over every module of the case (itself included) and both Go modules; every item is followed by a probe logging what it bound. " +
 			"Modules are numbered in order of first mention (symmetry reduction), every module is reachable. Enumerated exhaustively: " +
 			"part forms: full alphabet, N<=2, <=3 items per body, total items <=2 (quick) / <=3 (thorough), 4 binding flavours per module; cases with total <= 1 / <= 2 also with main run through py.RunFile (name via sys.path, absolute path, absolute path + sys.path) and with the same case run in a second context while the first is alive; " +
